@@ -104,6 +104,8 @@ def ambiguity(spec, v, mat):
             return "no-member"
         Ai = mat.annotation(ms[own])
         kw, w = tl.call(lambda: tl.marshaller(Ai)(v))
+        if kw == "ok" and w is None and any(m["k"] == "none" for m in ms):
+            return "unmarshal-captured"   # None is honoured first wherever it is declared (an Enum member whose value is None)
         for j in range(own):
             if ms[j]["k"] == "none":
                 continue
@@ -119,7 +121,12 @@ def ambiguity(spec, v, mat):
     if k == "ref":
         return A(mat.resolve(spec), v)
     if k == "optional":
-        return None if v is None else A(spec["a"][0], v)
+        if v is None:
+            return None
+        kw, w = tl.call(lambda: tl.marshaller(mat.annotation(spec["a"][0]))(v))
+        if kw == "ok" and w is None:
+            return "unmarshal-captured"   # the wire form of a non-None value is None (an Enum member whose value is None)
+        return A(spec["a"][0], v)
     if k in ("list", "set", "frozenset", "deque", "vtuple"):
         return next((r for r in (A(spec["a"][0], x) for x in v) if r), None)
     if k == "tuple":
@@ -167,7 +174,7 @@ def check_value(p, v, col, via: str):
     if labels:
         col.sample({"T": mat.root_expr, "v": vsrc[:300], "labels": sorted(labels)})
 
-    amb = ambiguity(spec, v, mat) if wide else None
+    amb = ambiguity(spec, v, mat) if (wide or U.has_kind(spec, "optional")) else None
 
     def case():
         c = p.case(value=vsrc, via=via)
